@@ -75,7 +75,8 @@ def run_batch(work, binary, verdict, run, seed, tag, stats):
         scheds.append(sp)
     job = {"configs": CONFIGS, "cfg": name, "seed": seed, "traces": run.get("traces", 0), "scheds": scheds,
            "out": trace, "drain": run.get("drain", False), "notime": run.get("notime", False),
-           "stats": work.path("%s-%s.stats.json" % (tag, name)), "zerowait": run.get("zerowait", False), "tb": run.get("tb", [])}
+           "stats": work.path("%s-%s.stats.json" % (tag, name)), "zerowait": run.get("zerowait", False), "tb": run.get("tb", []),
+           "noprefix": run.get("noprefix", False)}
     jp = work.path("%s-%s.job.json" % (tag, name))
     json.dump(job, open(jp, "w"))
     rc, out, wall = v.run_harness(binary, "TestSession", jp, timeout=run.get("timeout", 300))
@@ -140,7 +141,7 @@ def run_batch(work, binary, verdict, run, seed, tag, stats):
             hit_in_trace.setdefault(start, set()).add(k0["id"].split("/")[0])
 
         def writer(path, start=start, idx=idx):
-            json.dump({"property": verdict.prop, "cfg": name, "predicate": pred, "job": dict({k: job[k] for k in ("drain", "notime", "zerowait")}, tb=lines[start].get("tb", [])),
+            json.dump({"property": verdict.prop, "cfg": name, "predicate": pred, "job": dict({k: job[k] for k in ("drain", "notime", "zerowait")}, tb=lines[start].get("tb", []), noprefix=True),
                        "schedule": schedule_of(lines, start, idx), "events": lines[start:idx + 1]}, open(path, "w"))
         if not v.match_known(verdict.known, feat):
             if shapes.get((pred, name), 0) >= 5:
